@@ -8,6 +8,26 @@ THEOREMS = ["store_bounds", "default_config_bounds", "no_expired_record", "no_ex
             "reannounce_in_place", "providers_closest_step"]
 CONSTS = ["DEFAULT_MAX_RECORDS", "DEFAULT_MAX_RECORD_SIZE_BYTES", "DEFAULT_MAX_PROVIDER_KEYS",
           "DEFAULT_MAX_PROVIDER_ADDRESSES", "DEFAULT_MAX_PROVIDERS_PER_KEY"]
+MANIFEST = {
+    "text": "Lean 4 theorems (store_bounds by induction over all operation histories and all configurations; "
+            "default_config_bounds on the regenerated constants; no_expired_record/provider, ttl_monotone, reannounce_in_place, "
+            "providers_closest_step) about an executable model of MemoryStore, plus a seeded correspondence run of the real "
+            "MemoryStore against the model's executable definitions and a specification-level oracle. A pure data structure: "
+            "proof over all histories is the right level.",
+    "note": "Trusted: Lean kernel; axioms propext/Classical.choice/Quot.sound; the hand-written model and its tie (sampled "
+            "differential runs through adapter src/verif/c17.rs); binary_search_by modelled by its spec on sorted input; SHA-256 "
+            "and Instant outside the model.",
+    "technique": "Lean 4 proof (invariant by induction over operations) + model/implementation correspondence check",
+    "design_ref": "DESIGN.md §7 C17",
+}
+_CFG = "src/protocol/libp2p/kademlia/config.rs"
+CONST_TABLE = [
+    ("DEFAULT_MAX_RECORDS", _CFG, r"const DEFAULT_MAX_RECORDS: usize = ([^;]+);", 1024),
+    ("DEFAULT_MAX_RECORD_SIZE_BYTES", _CFG, r"const DEFAULT_MAX_RECORD_SIZE_BYTES: usize = ([^;]+);", 66560),
+    ("DEFAULT_MAX_PROVIDER_KEYS", _CFG, r"const DEFAULT_MAX_PROVIDER_KEYS: usize = ([^;]+);", 1024),
+    ("DEFAULT_MAX_PROVIDER_ADDRESSES", _CFG, r"const DEFAULT_MAX_PROVIDER_ADDRESSES: usize = ([^;]+);", 30),
+    ("DEFAULT_MAX_PROVIDERS_PER_KEY", _CFG, r"const DEFAULT_MAX_PROVIDERS_PER_KEY: usize = ([^;]+);", 20),
+]
 RULE = ("seeded operation histories (cfg; put/get/putprov/provs/putlocal/rmlocal over 4 colliding keys, 8 providers, "
         "expired/unexpired/no expiry, more keys and providers than the bounds; final sweep reading every key) run on "
         "the real MemoryStore and on the Lean model; a case is non-trivial if at least one put/putprov was accepted and "
